@@ -154,4 +154,13 @@ PROPS['C20'] = {
                    'Segment on single-layout descriptions and the end-to-end effect of the modes are decided on each run by the oracle over generated descriptions and placements. ' + _PLSS_TIE,
 }
 
+PROPS['C14'] = {
+    'group': 'objects', 'level': 'proof', 'build_timeout': 2400,
+    'explanation': 'Theorems about the object state machine (Tract / PLSSDesc over parse(commit, keywords), parse_tracts, preprocess, config assignment) built on the full parser model, for all states and '
+                   'keyword sets: commit=False returns the object unchanged; a committed PLSSDesc parse reads only text, settings and MasterConfig, replaces the results and is idempotent; what a Tract '
+                   'parse computes is independent of the flags it holds and its flags are the held ones followed by the generated ones (so lots/aliquots/acreages/pp_desc are reproduced exactly; the '
+                   'doubling of its own warnings is refuted with a witness and listed as a known finding). Aliasing is outside a pure model: it is decided on each run by deep snapshots around every '
+                   'commit=False call and by random operation histories executed on real objects and on the extracted state machine.',
+}
+
 NOT_CLAIMED = {}
